@@ -38,6 +38,9 @@ func (p *vMemProvider) Retrieve(context.Context, string, confmap.WatcherFunc) (*
 func (p *vMemProvider) Scheme() string                 { return "vmem" }
 func (p *vMemProvider) Shutdown(context.Context) error { return nil }
 
+// vLastCfg: service::extensions of the last vConfMap call as configured (indices, with repetitions)
+var vLastCfg []int
+
 func vConfMap(topo vTopo, specs []vExtSpec, rng *vRand) map[string]any {
 	rc, pc, ec, cc := topo.componentConfigs()
 	sect := func(m map[component.ID]component.Config) map[string]any {
@@ -57,6 +60,17 @@ func vConfMap(topo vTopo, specs []vExtSpec, rng *vRand) map[string]any {
 		j := rng.Intn(i + 1)
 		xl[i], xl[j] = xl[j], xl[i]
 	}
+	var dxl []any
+	vLastCfg = nil
+	for _, i := range vDupIdx(rng, len(xl)) {
+		dxl = append(dxl, xl[i])
+		for _, s := range specs {
+			if vExtID(s.idx).String() == xl[i].(string) {
+				vLastCfg = append(vLastCfg, s.idx)
+			}
+		}
+	}
+	xl = dxl
 	strs := func(l []string) []any {
 		r := make([]any, len(l))
 		for i, s := range l {
@@ -143,6 +157,7 @@ func TestVerifC10Otelcol(t *testing.T) {
 		for _, pl := range vPlans(rng, comps, exts, cfgw, pipew, 4) {
 			w := &vWorld{}
 			conf := vConfMap(topo, specs, rng)
+			cfgIdx := append([]int{}, vLastCfg...)
 			// failures must be armed when the instance is created (the collector builds and starts in one call)
 			armC := func(c *vComp) {
 				i, ok := idOf[c.key]
@@ -239,7 +254,7 @@ func TestVerifC10Otelcol(t *testing.T) {
 			w.mu.Unlock()
 			c := &vCase{kind: 3, comps: comps, exts: exts, cfgw: cfgw, pipew: pipew, edges: edges, specEdges: edges,
 				deps: deps, hasConf: true, fxStart: pl.fxStart, fxStop: pl.fxStop, fcStart: pl.fcStart, fcStop: pl.fcStop,
-				fCfg: pl.fCfg, fReady: pl.fReady, fNotReady: pl.fNotReady, log: log, ret: w.ret,
+				fCfg: pl.fCfg, fReady: pl.fReady, fNotReady: pl.fNotReady, log: log, ret: w.ret, iStart: cfgIdx,
 				cx: vCtx{xSens: pl.cx.xSens, cSens: pl.cx.cSens}}
 			c.errs = vErrList(errAll)
 			if ncomp != len(comps) || nonKey > 0 {
@@ -279,6 +294,10 @@ func TestVerifC10Otelcol(t *testing.T) {
 				out.Oracle("start-failure", term, fmt.Sprintf("collector state %v after Run returned", col.GetState()))
 			}
 			c.oracle(out)
+			vExtInstances(out, term, w)
+			if len(cfgIdx) > len(exts) {
+				out.Stat("extensions-configured-with-repetitions", 1)
+			}
 			out.Case(true, term)
 			if asked {
 				out.Stat("start=ok", 1)
